@@ -1208,6 +1208,10 @@ func c10Run(t *testing.T, rec *vlib.Recorder) func(c c10Case, v *vlib.Verdict) {
 		}
 		sort.Strings(cl)
 		v.Key = r.stateTag() + "|" + c.Cfg.String() + "|" + strings.Join(cl, ",")
+		if len(c.Junk) > 0 {
+			// (the sweep's cases differ in their length range only)
+			v.Key += fmt.Sprintf("|n=%d|cut0=%d", len(c.Junk), c.Junk[0].Cut)
+		}
 	}
 }
 
